@@ -302,33 +302,71 @@ def rule_predicate_args(run: Run, prog: Program, sites, quad: list[str]) -> None
             run.add("E7.c2", fn.short, label, PROVEN, "predicate receives all four arguments", loc)
 
 
+def _reduction_form(t: ast.AST, env: dict[str, ast.AST], depth: int = 0):
+    """('all'|'any', negated?, operand) for tests of the form [not] np.all/any(X) / [not] all/any(X), through single-assignment locals."""
+    neg = False
+    while isinstance(t, ast.UnaryOp) and isinstance(t.op, ast.Not):
+        neg, t = not neg, t.operand
+    if isinstance(t, ast.Name) and t.id in env and depth < 3:
+        r = _reduction_form(env[t.id], env, depth + 1)
+        if r is not None:
+            return r[0], r[1] ^ neg, r[2]
+        return None
+    if isinstance(t, ast.Call) and t.args:
+        red = t.func.attr if isinstance(t.func, ast.Attribute) else getattr(t.func, "id", "")
+        if red in ("all", "any"):
+            return red, neg, t.args[0]
+    return None
+
+
+def _predicate_in(e: ast.AST, env: dict[str, ast.AST], depth: int = 0) -> str | None:
+    """name of a package validity predicate (is_*, contains, is_multiple ...) the array expression is computed from"""
+    for x in ast.walk(e):
+        if isinstance(x, ast.Call):
+            nm = x.func.attr if isinstance(x.func, ast.Attribute) else getattr(x.func, "id", "")
+            if nm.startswith("is_") or nm in ("contains",):
+                return nm
+        if isinstance(x, ast.Name) and x.id in env and depth < 3:
+            r = _predicate_in(env[x.id], env, depth + 1)
+            if r:
+                return r
+    return None
+
+
 def rule_quantifier(run: Run, prog: Program, sites, exc_name: str) -> None:
-    run.rule("E7.q", "a documented error guarded by a validity predicate over a collection is raised as soon as ONE element fails: the "
-                     "package idiom is `if not np.all(is_x(...)): raise`; `if not np.any(is_x(...))` raises only when every element fails and lets "
-                     "mixed collections through silently")
+    run.rule("E7.q", "a documented error guarded by a per-element predicate over a collection is raised as soon as ONE element is affected: "
+                     "`if not np.all(ok): raise` / `if np.any(bad): raise`. The universal forms `if not np.any(X): raise` and `if np.all(X): raise` "
+                     "fire only when every element agrees and let mixed collections through silently - whatever the polarity of X")
+    from geolint.dunder import _single_assign_env
+
     for fn, rs, ctx in sites:
-        guards = [c for c in ctx if c[0] == "if" and c[2] is True]
+        guards = [c for c in ctx if c[0] == "if"]
         if not guards:
             continue
-        t = guards[-1][1]
+        env = _single_assign_env(fn)
         loc = f"{fn.module.rel}:{rs.lineno}"
         label = norm_stmt(rs)[:100]
-        for node in ast.walk(t):
-            if not (isinstance(node, ast.UnaryOp) and isinstance(node.op, ast.Not) and isinstance(node.operand, ast.Call)):
+        todo = []
+        for g in guards:
+            if g[2] is True:
+                for t in (g[1].values if isinstance(g[1], ast.BoolOp) and isinstance(g[1].op, ast.And) else [g[1]]):
+                    todo.append((t, False))
+            elif not (isinstance(g[1], ast.BoolOp)):
+                todo.append((g[1], True))  # the raise sits in the else-arm of this test
+        for t, flip in todo:
+            form = _reduction_form(t, env)
+            if form is None:
                 continue
-            c = node.operand
-            red = c.func.attr if isinstance(c.func, ast.Attribute) else getattr(c.func, "id", "")
-            if red not in ("all", "any") or not c.args:
+            red, neg, operand = form
+            if flip:
+                neg = not neg
+            pred = _predicate_in(operand, env)
+            if pred is None:
                 continue
-            preds = [x for x in ast.walk(c.args[0]) if isinstance(x, ast.Call) and (
-                (isinstance(x.func, ast.Name) and (x.func.id.startswith("is_") or x.func.id in ("isclose",)))
-                or (isinstance(x.func, ast.Attribute) and (x.func.attr.startswith("is_") or x.func.attr in ("contains", "isclose"))))]
-            if not preds:
-                continue
-            pname = ast.unparse(preds[0].func)
-            if red == "all":
-                run.add("E7.q", fn.short, label, PROVEN, f"raised unless all elements satisfy {pname}", loc)
-            else:
+            universal = (red == "all" and not neg) or (red == "any" and neg)
+            if universal:
                 run.add("E7.q", fn.short, label, VIOLATION,
-                        f"`{ast.unparse(node)[:70]}`: {exc_name} is raised only when NO element satisfies {pname}; a collection in which some elements "
-                        f"fail the test is processed as if all had passed (silently wrong result for those positions)", loc)
+                        f"`{ast.unparse(t)[:70]}` (predicate {pred}): {exc_name} is raised only when ALL elements of a collection agree; a collection "
+                        f"in which only some elements are degenerate is processed as if none were (silently wrong result at those positions)", loc)
+            else:
+                run.add("E7.q", fn.short, label, PROVEN, f"raised as soon as one element fails ({pred})", loc)
